@@ -298,6 +298,23 @@ def run_layer(sx, cfg, env):
     _three(sx, op, _same_msgs)
 
 
+def run_respenc(sx, cfg, env):
+    """Response.encode with a request echo (MATCHING-REQUEST-PARAM): without a triggering request,
+    or with one that is too short, strict mode reports an encode error; lenient mode downgrades it"""
+    obj = env["obj"]
+    a = sx.int("a", 0, 255)
+    n = cfg["request_len"]
+    req = None if n is None else sx.bytes("request", n)
+
+    def op():
+        kw = {"a": a}
+        if req is not None or cfg.get("explicit_none"):
+            kw["coded_request"] = None if req is None else core.frozen(req)
+        return obj.encode(**kw)
+
+    _three(sx, op, _same_bytes)
+
+
 LIM = {"quick": explore.Limits(max_paths=4000, wall_s=200), "thorough": explore.Limits(max_paths=40000, wall_s=900)}
 HARNESSES = {
     "enc": {"build": cc.build_atom, "run": run_enc, "width": 80, "limits": LIM,
@@ -312,9 +329,12 @@ HARNESSES = {
                 "must_cover": ["strict-ok", "strict-error"]},
     "layer": {"build": build_layer, "run": run_layer, "width": 80, "limits": LIM,
               "must_cover": ["strict-ok", "strict-error"]},
+    "respenc": {"build": None, "run": run_respenc, "width": 80, "limits": LIM,
+                "must_cover": ["strict-ok", "strict-error"]},
 }
 from harness import composite as _cp  # noqa: E402
 HARNESSES["compdec"]["build"] = _cp.build_composite
+HARNESSES["respenc"]["build"] = _cp.build_composite
 
 
 def _fresh(name):
@@ -325,7 +345,7 @@ def _fresh(name):
     HARNESSES[name]["run"] = lambda sx, cfg, env: run(sx, cfg, build(cfg))
 
 
-for _n in ("enc", "dec", "compdec", "layer"):
+for _n in ("enc", "dec", "compdec", "layer", "respenc"):
     _fresh(_n)
 STUBS = cc.STUBS + ["odxtools.exceptions.strict_mode is flipped by the harness itself (that is the "
                     "operation under test)", "logging of downgraded problems is silenced"]
@@ -395,6 +415,11 @@ def configs(tier, seed):
                 continue  # the probe of every item forks on the text table
             out.append({"id": f"compdec/{name}/len{n}", "harness": "compdec", "what": "request",
                         "name": name, "mlen": n, "build": {"what": "request", "name": name}})
+    for n, en in ((None, False), (None, True), (0, False), (2, False), (3, False), (4, False)):
+        out.append({"harness": "respenc", "what": "response", "name": "matching-request",
+                    "request_len": n, "explicit_none": en,
+                    "build": {"what": "response", "name": "matching-request"},
+                    "id": f"respenc/matching-request/rq{n}{'x' if en else ''}"})
     for fb in (0x22, 0x62, 0x63):
         out.append({"harness": "layer", "layer": "shared-prefix-physconst", "mlen": 3, "first": fb,
                     "build": {"layer": "shared-prefix-physconst"},
